@@ -4,6 +4,7 @@ import OW.Kernels.StorageTrapAll
 import OW.Kernels.C16.Conversions
 namespace OW.Props.GenTie
 open OW OW.Kernels OW.Gen.K OW.Gen.Prelude
+set_option linter.unusedSimpArgs false
 
 theorem forRangeN_eq_forLoop {σ : Type} (g : Int → σ → σ) (n i : Nat) (c : σ) :
     forRangeN g n (i : Int) c = Lag.forLoop (fun j => g (j : Int)) n i c := by
@@ -41,6 +42,46 @@ theorem forLoop_congr {σ : Type} (f g : Nat → σ → σ) (h : ∀ i c, f i c 
   have : f = g := funext fun i => funext fun c => h i c
   rw [this]
 
+/-- the hand model's loop `for i := i0; i < i0+n; i++` with a natural index is the same loop on `Int` -/
+theorem forLoop_eq_forRangeN {σ : Type} (g : Nat → σ → σ) (n i : Nat) (c : σ) :
+    Lag.forLoop g n i c = forRangeN (fun z => g z.toNat) n (i : Int) c := by
+  rw [forRangeN_eq_forLoop]
+  rfl
+
+/-- a loop from `lo` is the loop from 0 on the shifted index -/
+theorem forRangeN_shift {σ : Type} (body : Int → σ → σ) (n : Nat) (lo i : Int) (c : σ) :
+    forRangeN body n (lo + i) c = forRangeN (fun j => body (lo + j)) n i c := by
+  induction n generalizing i c with
+  | zero => rfl
+  | succ n ih =>
+    rw [forRangeN, forRangeN, ← ih (i + 1)]
+    have e : lo + i + 1 = lo + (i + 1) := by omega
+    rw [e]
+
+theorem forRangeN_from0 {σ : Type} (body : Int → σ → σ) (n : Nat) (lo : Int) (c : σ) :
+    forRangeN body n lo c = forRangeN (fun j => body (lo + j)) n 0 c := by
+  have := forRangeN_shift body n lo 0 c
+  rwa [Int.add_zero] at this
+
+/-- two loops from 0 that run equally often from equal values, with bodies that agree on the indices they visit -/
+theorem forRangeN0_congr {σ : Type} (f g : Int → σ → σ) (n m : Nat) (c d : σ) (hn : n = m) (hc : c = d)
+    (h : ∀ j : Int, 0 ≤ j → j < n → ∀ c, f j c = g j c) : forRangeN f n 0 c = forRangeN g m 0 d := by
+  subst hn hc
+  exact forRangeN_congr f g n 0 c (fun j h1 h2 c => h j h1 (by omega) c)
+
+/-- "the two loop nests do the same": every loop is brought to the form `forRangeN body n 0 init` on both sides, then the
+counts agree and the bodies store the same value at the same cell — integer arithmetic on the indices (`omega`), whatever
+index the source lets the loop run over (the source, the destination, an offset of either) -/
+syntax "loops_agree" : tactic
+macro_rules
+  | `(tactic| loops_agree) => `(tactic|
+      (repeat' (first
+        | rfl
+        | (refine forRangeN0_congr _ _ _ _ _ _ (by omega) ?_ ?_)
+        | (intro j hj0 hj1 c
+           simp only [sliceSet, sliceGet]
+           congr 1 <;> (try congr 1) <;> omega))))
+
 theorem gen_eq_Lag_core {α} [Num α] (timeLag : α) (inflow lagged outflow0 : List α) (k : Nat)
     (hk : Num.toInt timeLag = (k : Int)) (hpos : 0 < k) (hlen : outflow0.length = inflow.length) :
     lag.run inflow lagged timeLag outflow0 =
@@ -53,44 +94,29 @@ theorem gen_eq_Lag_core {α} [Num α] (timeLag : α) (inflow lagged outflow0 : L
   simp only [forRangeN_fst', implies_true]
   have hT : sliceLen inflow = (inflow.length : Int) := rfl
   have hO : sliceLen outflow0 = (inflow.length : Int) := by unfold sliceLen; rw [hlen]; rfl
-  have hmin : (minInt (k : Int) (inflow.length : Int) - 0).toNat = k.min inflow.length := by
-    show _ = min k inflow.length
+  have hmin : minInt (k : Int) (inflow.length : Int) = ((k.min inflow.length : Nat) : Int) := by
+    show _ = ((min k inflow.length : Nat) : Int)
     unfold minInt; split <;> omega
-  simp only [hT, hO, hmin, forRangeN_eq_forLoop0, forRangeN_eq_forLoop, sliceLen_forLoop, sliceSet_len, implies_true]
-  have h2 : ((inflow.length : Int) - k).toNat = inflow.length - k := by omega
-  have h3 : ((k : Int) - inflow.length).toNat = k - inflow.length := by omega
-  have h4 : ((inflow.length : Int) - 0).toNat = inflow.length := by omega
-  have h5 : ((k : Int) - 0).toNat = k := by omega
-  simp only [h2, h3, h4, h5]
-  have ea : ∀ (j : Nat) (c : List α), sliceSet c (j : Int) (sliceGet lagged (j : Int)) = c.set j (lagged.getD j default) :=
-    fun _ _ => rfl
-  have eb : ∀ (j : Nat) (c : List α), sliceSet c (j : Int) (sliceGet inflow ((j : Int) - k)) = c.set j (inflow.getD (j - k) default) := by
-    intro j c; unfold sliceSet sliceGet
-    have : ((j : Int) - k).toNat = j - k := by omega
-    rw [this]; rfl
-  have ec : ∀ (j : Nat) (c : List α), sliceSet c ((j : Int) - inflow.length) (sliceGet c (j : Int)) = c.set (j - inflow.length) (c.getD j default) := by
-    intro j c; unfold sliceSet sliceGet
-    have : ((j : Int) - inflow.length).toNat = j - inflow.length := by omega
-    rw [this]; rfl
-  simp only [ea, eb, ec]
+  have hlenN : ∀ (g : Int → List α → List α) (n : Nat) (i : Int) (c : List α),
+      (∀ i c, (g i c).length = c.length) → sliceLen (forRangeN g n i c) = sliceLen c := by
+    intro g n i c hg
+    induction n generalizing i c with
+    | zero => rfl
+    | succ n ih => rw [forRangeN, ih, show sliceLen (g i c) = sliceLen c from by unfold sliceLen; rw [hg]]
+  simp only [hT, hO, hmin, hlenN, sliceSet_len, implies_true, forLoop_eq_forRangeN]
   by_cases hlt : inflow.length < k
   · have hgt : (k : Int) > (inflow.length : Int) := by omega
-    have ed : ∀ (j : Nat) (c : List α), sliceSet c ((k : Int) - inflow.length + j) (sliceGet inflow (j : Int)) =
-        c.set (k - inflow.length + j) (inflow.getD j default) := by
-      intro j c; unfold sliceSet sliceGet
-      have : ((k : Int) - inflow.length + j).toNat = k - inflow.length + j := by omega
-      rw [this]; rfl
-    simp only [hgt, hlt, ↓reduceIte, ed]
+    simp only [hgt, hlt, ↓reduceIte]
+    simp only [forRangeN_from0 _ _ ((_ : Nat) : Int), forRangeN_from0 _ _ ((_ : Int) - _)]
+    refine Prod.ext ?_ ?_ <;> dsimp only <;> loops_agree
   · have hgt : ¬ ((k : Int) > (inflow.length : Int)) := by omega
-    have ee : ∀ (j : Nat) (c : List α), sliceSet c (j : Int) (sliceGet inflow ((inflow.length : Int) - k + j)) =
-        c.set j (inflow.getD (inflow.length - k + j) default) := by
-      intro j c; unfold sliceSet sliceGet
-      have : ((inflow.length : Int) - k + j).toNat = inflow.length - k + j := by omega
-      rw [this]; rfl
-    simp only [hgt, hlt, ↓reduceIte, ee]
+    simp only [hgt, hlt, ↓reduceIte]
+    simp only [forRangeN_from0 _ _ ((_ : Nat) : Int), forRangeN_from0 _ _ ((_ : Int) - _)]
+    refine Prod.ext ?_ ?_ <;> dsimp only <;> loops_agree
 
-/-- `lag` (models/routing/lag.go, translated as a whole: the four in-place loops over computed indices, the early return
-for `lagSteps == 0`) = `Lag.run` on every run on which the hand model does not report a Go panic (`lagSteps < 0`, state
+/-- `lag` (models/routing/lag.go, translated as a whole: the in-place loops over computed indices — whichever index the source
+lets each loop run over: `gen_eq_Lag_core` brings every loop to the form "n iterations from 0" and compares counts and index
+expressions by integer arithmetic —, the early return for `lagSteps == 0`) = `Lag.run` on every run on which the hand model does not report a Go panic (`lagSteps < 0`, state
 row shorter than `lagSteps`: index out of range — not part of the generated definition). `outflow` enters as the
 zero-initialised output array of the length of `inflow`. -/
 theorem gen_eq_Lag {α} [Num α] (timeLag : α) (inflow lagged : List α) (o : Lag.Out α)
